@@ -30,7 +30,7 @@ type c09Params struct {
 	Seed   int64  `json:"seed"`
 }
 
-var c09Paths = []string{"ssse3", "scalar-asm", "generic-go", "platformLE-cast", "exported-ssse3-on", "exported-ssse3-off"}
+var c09Paths = []string{"ssse3", "scalar-asm", "generic-go", "generic-go-words", "platformLE-cast", "exported-ssse3-on", "exported-ssse3-off"}
 
 func init() {
 	register(&c09{base{
@@ -124,6 +124,27 @@ func c09Kernels(path string) (mul, mulAdd kernel) {
 			func(c gf2p16.T, in, out []byte) { gf2p16.VerifMulAndAddByteSliceLE(c, in, out, false) }
 	case "generic-go":
 		return gf2p16.VerifMulByteSliceLEGeneric, gf2p16.VerifMulAndAddByteSliceLEGeneric
+	case "generic-go-words":
+		// the portable kernels on field elements (what the byte-slice entry
+		// points reach on little-endian platforms other than amd64), driven
+		// through an explicit little-endian conversion
+		wrap := func(k func(c gf2p16.T, in, out []gf2p16.T)) kernel {
+			return func(c gf2p16.T, in, out []byte) {
+				if len(in) != len(out) {
+					panic("size mismatch")
+				}
+				ti, to := make([]gf2p16.T, len(in)/2), make([]gf2p16.T, len(out)/2)
+				for i := range ti {
+					ti[i] = gf2p16.T(uint16(in[2*i]) | uint16(in[2*i+1])<<8)
+					to[i] = gf2p16.T(uint16(out[2*i]) | uint16(out[2*i+1])<<8)
+				}
+				k(c, ti, to)
+				for i := range to {
+					out[2*i], out[2*i+1] = byte(to[i]), byte(to[i]>>8)
+				}
+			}
+		}
+		return wrap(gf2p16.VerifMulSliceGeneric), wrap(gf2p16.VerifMulAndAddSliceGeneric)
 	case "platformLE-cast":
 		return gf2p16.VerifMulByteSliceLEPlatformLE, gf2p16.VerifMulAndAddByteSliceLEPlatformLE
 	case "exported-ssse3-on":
